@@ -1208,6 +1208,10 @@ static const uint8_t *unmarshal_one_fiber(
     if (status < 0 || status > JANET_STATUS_ALIVE) {
         janet_panic("invalid fiber status");
     }
+    /* A fiber without any stack frame can never run again */
+    if (frame == 0 && status != JANET_STATUS_DEAD) {
+        janet_panic("fiber has no stack frames but is not dead");
+    }
 
     /* Return data */
     *out = fiber;
